@@ -96,9 +96,8 @@ def spec_str(state: dict) -> str:
             from emsarray.conventions.shoc import ShocStandard   # live table of the working tree
             cn = {k.value: list(v) for k, v in ShocStandard.coordinate_names.items()}
         return 'arakawa:' + ','.join(f'{k}={hx(v[0])}/{hx(v[1])}' for k, v in cn.items())
-    key = kw.get('topology_key')
     roles = state.get('valid_roles', [])
-    return f"ugrid:{'-' if key is None else hx(key)}:{','.join(roles) if roles else '-'}"
+    return f"ugrid:{','.join(roles) if roles else '-'}"
 
 
 def vars_str(ds, state: dict) -> str:
@@ -244,9 +243,12 @@ def nongeo_edit_sets(rng, ev: Eval) -> list:
     E.append(('reorder', [{'op': 'reorder', 'seed': rng.randint(0, 10 ** 6)}]))
     E.append(('rename_dim:time', [{'op': 'rename_dim', 'dim': 'time', 'to': 'record'}]))
     gdims = []
+    named = set()       # dimensions a geometry attribute refers to by name (UGRID face_dimension / edge_dimension)
+    for n in state['expected']:
+        named.update(v for v in ds.variables[n].attrs.values() if isinstance(v, str))
     for n in state['expected']:
         for d in ds.variables[n].dims:
-            if d not in gdims and d not in ds.variables:
+            if d not in gdims and d not in ds.variables and d not in named:
                 gdims.append(d)
     if gdims and not shoc:      # ShocSimple finds its coordinates BY the dimension names (j, i)
         d = rng.choice(gdims)
@@ -424,8 +426,10 @@ def malformed_cases(rng, tier: str) -> list:
     out.append(('shoc-standard-missing', {'recipe': r6, 'edits': [{'op': 'remove_var', 'name': 'x_left'}]}))
     # UGRID: explicit topology key; mesh attribute naming absent variables; one-word coordinates; extra roles
     r7 = base('ugrid', coords_as='vars', tables=['face_edge', 'edge_node'])
-    out.append(('ugrid-topology-key', {'recipe': r7, 'edits': [], 'kwargs': {'topology_key': 'Mesh2'}}))
-    out.append(('ugrid-topology-key-missing', {'recipe': r7, 'edits': [], 'kwargs': {'topology_key': 'Nope'}}))
+    for s in range(3):      # a second variable with cf_role = mesh_topology: the first data variable wins
+        out.append(('ugrid-two-meshes', {'recipe': r7, 'edits': [
+            {'op': 'add_var', 'name': 'OtherMesh', 'on': 'scalar', 'dtype': 'i4', 'attrs': {'cf_role': 'mesh_topology'}},
+            {'op': 'reorder', 'seed': s}]}))
     for key, val, tag in [('face_face_connectivity', 'absent_variable', 'ugrid-role-absent'),
                           ('edge_coordinates', 'absent_x absent_y', 'ugrid-coords-absent'),
                           ('edge_coordinates', 'oneword', 'ugrid-coords-oneword'),
@@ -581,10 +585,12 @@ def run(ctx) -> None:
             desc = {'base': bcase, 'edited': case, 'expect': 'differ', 'kind': kind}
             ctx.count(f'geo:{kind}')
             ctx.nontrivial((tag, 'G', kind, role, json.dumps(edits, sort_keys=True)))
-            items.append((e.stream_line(), e.stream_out(), {'case': case, 'op': 'stream'}))
             if not e.ok:
-                ctx.count(f'geo-err:{conv}:{kind}')   # the edited dataset is no longer a dataset of the convention
+                # the edited dataset is no longer a dataset of the convention (e.g. ShocSimple coordinates must
+                # have dimensions (j, i)); the model does not cover the conventions' own validation
+                ctx.count(f'geo-err:{conv}:{kind}')
                 continue
+            items.append((e.stream_line(), e.stream_out(), {'case': case, 'op': 'stream'}))
             g1, c1 = geometry_content(e.ds, e.state)
             if kind == 'attr_reorder':
                 reorder_changes[0] += 1
